@@ -5,7 +5,8 @@
 //! `rb` = width of the returned remainder, `ru` = 1 when the remainder is returned as a `Uint`,
 //! `oq` / `or` = 1 when the form yields a quotient / a remainder, and the documented behaviour classes
 //!   `z`  zero divisor: "none" (forms taking a plain divisor) | "na" (NonZero divisor)
-//!   `mo` quotient out of range (MIN / -1): "none" (documented) | "panic" (undocumented `expect` in
+//!   `mo` quotient out of range (MIN / -1): "none" (documented) | "report" (a bare Int is returned: the only way to report is the
+//!        panic of the `expect`: DivVartime, `/=`) | "panic" (Wrapping forms: the panic or the wrapped quotient; undocumented `expect` in
 //!        the assigning / Wrapping / DivVartime forms) | "na" (unsigned divisor: cannot happen).
 //! Outputs: `q` (nb bits), `r` (rb bits), and `qs` (is_some of the quotient) for the forms that
 //! return `(ConstCtOption<q>, r)`.  `Int` has no boxed counterpart.
@@ -241,7 +242,7 @@ fn same_signed<const N: usize>(cx: &mut Cx, iters: usize) {
         cx.call(e("int.rem_vartime", "trunc", false, true, "na", "none"), || o_r(&n.rem_vartime(&nzd)));
         cx.call(e("int.checked_div_rem_floor", "floor", true, true, "na", "none"), || { let (q, r) = n.checked_div_rem_floor(&nzd); o_oqr(q.into(), &r) });
         cx.call(e("int.checked_div_rem_floor_vartime", "floor", true, true, "na", "none"), || { let (q, r) = n.checked_div_rem_floor_vartime(&nzd); o_oqr(q.into(), &r) });
-        cx.call(e("int.DivVartime", "trunc", true, false, "na", "panic"), || o_q(&DivVartime::div_vartime(&n, &nzd)));
+        cx.call(e("int.DivVartime", "trunc", true, false, "na", "report"), || o_q(&DivVartime::div_vartime(&n, &nzd)));
         let ovf = nv == pmin(N) && dv == pint(N, -1);
         if it % 4 == 0 || ovf {
             // operators: Int / NonZero<Int> is a CtOption; the assigning and Wrapping forms unwrap it
@@ -249,8 +250,8 @@ fn same_signed<const N: usize>(cx: &mut Cx, iters: usize) {
             cx.call(e("int.op_div_vr", "trunc", true, false, "na", "none"), || o_oq(Option::from(n / &nzd)));
             cx.call(e("int.op_div_rv", "trunc", true, false, "na", "none"), || o_oq(Option::from(&n / nzd)));
             cx.call(e("int.op_div_rr", "trunc", true, false, "na", "none"), || o_oq(Option::from(&n / &nzd)));
-            cx.call(e("int.op_div_assign_v", "trunc", true, false, "na", "panic"), || { let mut t = n; t /= nzd; o_q(&t) });
-            cx.call(e("int.op_div_assign_r", "trunc", true, false, "na", "panic"), || { let mut t = n; t /= &nzd; o_q(&t) });
+            cx.call(e("int.op_div_assign_v", "trunc", true, false, "na", "report"), || { let mut t = n; t /= nzd; o_q(&t) });
+            cx.call(e("int.op_div_assign_r", "trunc", true, false, "na", "report"), || { let mut t = n; t /= &nzd; o_q(&t) });
             cx.call(e("int.op_rem_vv", "trunc", false, true, "na", "none"), || o_r(&(n % nzd)));
             cx.call(e("int.op_rem_vr", "trunc", false, true, "na", "none"), || o_r(&(n % &nzd)));
             cx.call(e("int.op_rem_rv", "trunc", false, true, "na", "none"), || o_r(&(&n % nzd)));
